@@ -144,6 +144,7 @@ func allSmallConsts(ph *ssa.Phi) bool {
 
 // ruleA18Prefix: (threshold, byte count, minor) table of appendCborTypePrefix and big-endian emission.
 func ruleA18Prefix(r *Run, p *Prog, f *ssa.Function) {
+	f = p.View(f, "", nil)
 	number := f.Params[2]
 	var hdr *ssa.Call
 	var minorPhi *ssa.Phi
@@ -253,6 +254,12 @@ func ruleA18Prefix(r *Run, p *Prog, f *ssa.Function) {
 		k := mul.X
 		if kc, ok := k.(*ssa.Convert); ok {
 			k = kc.X
+		}
+		// counting up instead of down: the shift index is count - w (w = 1 … count) or
+		// count - 1 - w (w = 0 … count-1)
+		if upOK := bigEndianCountingUp(k, cntPhi); upOK {
+			okEmit = true
+			return
 		}
 		kph, ok := k.(*ssa.Phi)
 		if !ok || !isLoopHeader(kph.Block()) {
@@ -542,4 +549,81 @@ func foldInt(v ssa.Value, depth int) (int64, bool) {
 func isFloatType(t types.Type) bool {
 	b, ok := t.Underlying().(*types.Basic)
 	return ok && b.Info()&types.IsFloat != 0
+}
+
+// bigEndianCountingUp: k = cnt*1 + w*(-1) + c with w a loop counter stepping +1 from s while
+// `w <= cnt` (s = 1, c = 0) or `w < cnt` (s = 0, c = -1): k runs cnt-1 … 0.
+func bigEndianCountingUp(k ssa.Value, cnt ssa.Value) bool {
+	var w *ssa.Phi
+	// linear form over (cnt, w)
+	var lin func(v ssa.Value, depth int) (a, b, c int64, ok bool)
+	lin = func(v ssa.Value, depth int) (int64, int64, int64, bool) {
+		if depth > 6 {
+			return 0, 0, 0, false
+		}
+		if v == cnt {
+			return 1, 0, 0, true
+		}
+		if n, ok := constInt(v); ok {
+			return 0, 0, n, true
+		}
+		switch x := v.(type) {
+		case *ssa.Convert:
+			return lin(x.X, depth+1)
+		case *ssa.Phi:
+			if isLoopHeader(x.Block()) && (w == nil || w == x) {
+				w = x
+				return 0, 1, 0, true
+			}
+		case *ssa.BinOp:
+			if x.Op == token.ADD || x.Op == token.SUB {
+				a1, b1, c1, ok1 := lin(x.X, depth+1)
+				a2, b2, c2, ok2 := lin(x.Y, depth+1)
+				if !ok1 || !ok2 {
+					return 0, 0, 0, false
+				}
+				if x.Op == token.SUB {
+					return a1 - a2, b1 - b2, c1 - c2, true
+				}
+				return a1 + a2, b1 + b2, c1 + c2, true
+			}
+		}
+		return 0, 0, 0, false
+	}
+	a, b, c, ok := lin(k, 0)
+	if !ok || w == nil || a != 1 || b != -1 {
+		return false
+	}
+	// the counter: start s, step +1
+	var start int64
+	haveStart, step := false, false
+	for idx, e := range w.Edges {
+		if w.Block().Dominates(w.Block().Preds[idx]) {
+			if bo, ok := e.(*ssa.BinOp); ok && bo.Op == token.ADD && bo.X == ssa.Value(w) {
+				if one, ok := constInt(bo.Y); ok && one == 1 {
+					step = true
+				}
+			}
+		} else if n, ok := constInt(e); ok {
+			start, haveStart = n, true
+		}
+	}
+	if !haveStart || !step {
+		return false
+	}
+	ifi, ok := w.Block().Instrs[len(w.Block().Instrs)-1].(*ssa.If)
+	if !ok {
+		return false
+	}
+	cb, ok := ifi.Cond.(*ssa.BinOp)
+	if !ok || cb.X != ssa.Value(w) || cb.Y != cnt {
+		return false
+	}
+	switch {
+	case start == 1 && c == 0 && cb.Op == token.LEQ:
+		return true
+	case start == 0 && c == -1 && cb.Op == token.LSS:
+		return true
+	}
+	return false
 }
